@@ -113,10 +113,13 @@ def registry():
     E.append(Est('Tilt[acc-only]', 'S', 'T', 'q', _G(1.0), lambda dip, frame: [1.0, 0.0, 0.0],
                  batch=lambda a, m, dip, frame: F.Tilt(a).Q, single=lambda a, m, dip, frame: F.Tilt(a).Q,
                  estimate=lambda a, m, dip, frame: F.Tilt().estimate(a), tilt_only=True))
-    E.append(Est('AQUA.estimate', 'S', 'fwd', 'q', _G(1.0), lambda dip, frame: [cd(dip), 0.0, sd(dip)], batch=None,
-                 single=lambda a, m, dip, frame: F.AQUA().estimate(a, m)))
-    E.append(Est('AQUA.estimate[acc-only]', 'S', 'fwd', 'q', _G(1.0), lambda dip, frame: [1.0, 0.0, 0.0], batch=None,
-                 single=lambda a, m, dip, frame: F.AQUA().estimate(a), tilt_only=True))
+    E.append(Est('AQUA.estimate', 'S', 'fwd', 'q', _G(1.0), lambda dip, frame: [cd(dip), 0.0, sd(dip)],
+                 batch=lambda a, m, dip, frame: F.AQUA(acc=a, mag=m).Q,           # no gyroscope: one algebraic fix per row
+                 single=lambda a, m, dip, frame: F.AQUA(acc=a, mag=m).Q,
+                 estimate=lambda a, m, dip, frame: F.AQUA().estimate(a, m)))
+    E.append(Est('AQUA.estimate[acc-only]', 'S', 'fwd', 'q', _G(1.0), lambda dip, frame: [1.0, 0.0, 0.0],
+                 batch=lambda a, m, dip, frame: F.AQUA(acc=a).Q, single=lambda a, m, dip, frame: F.AQUA(acc=a).Q,
+                 estimate=lambda a, m, dip, frame: F.AQUA().estimate(a), tilt_only=True))
     E.append(Est('acc2q', 'S', 'T', 'q', _G(1.0), lambda dip, frame: [1.0, 0.0, 0.0], batch=None,
                  single=lambda a, m, dip, frame: O.acc2q(a), tilt_only=True))
 
